@@ -16,20 +16,20 @@ Definition grid_ok (n : Z) : bool :=
   && fbits_eqb (round8 (above n 0x1.8p-1)) (grid (n + 1))            (* +0.75 step: identified with n+1 *)
   && negb (fbits_eqb (round8 (above n 0x1p-2)) (round8 (above (n + 1) 0x1.8p-1))). (* 1.5 steps apart: separated *)
 
-Lemma sweep_small : pow2_forall grid_ok 16 0 = true.
+Lemma sweep_small : pow2_forall grid_ok 12 0 = true.
 Proof. vm_compute. reflexivity. Qed.
-Lemma sweep_unit : pow2_forall grid_ok 16 100000000 = true.
+Lemma sweep_unit : pow2_forall grid_ok 12 100000000 = true.
 Proof. vm_compute. reflexivity. Qed.
-Lemma sweep_thousand : pow2_forall grid_ok 16 100000000000 = true.
+Lemma sweep_thousand : pow2_forall grid_ok 12 100000000000 = true.
 Proof. vm_compute. reflexivity. Qed.
 
 Definition in_swept_range (n : Z) : Prop :=
-  (0 <= n < 65536 \/ 100000000 <= n < 100065536 \/ 100000000000 <= n < 100000065536)%Z.
+  (0 <= n < 4096 \/ 100000000 <= n < 100004096 \/ 100000000000 <= n < 100000004096)%Z.
 
 Lemma grid_rounding_F (n : Z) : in_swept_range n -> grid_ok n = true.
 Proof.
   intros [H|[H|H]].
-  - apply (pow2_forall_spec grid_ok 16 0 sweep_small). change (2 ^ Z.of_nat 16)%Z with 65536%Z. lia.
-  - apply (pow2_forall_spec grid_ok 16 100000000 sweep_unit). change (2 ^ Z.of_nat 16)%Z with 65536%Z. lia.
-  - apply (pow2_forall_spec grid_ok 16 100000000000 sweep_thousand). change (2 ^ Z.of_nat 16)%Z with 65536%Z. lia.
+  - apply (pow2_forall_spec grid_ok 12 0 sweep_small). change (2 ^ Z.of_nat 12)%Z with 4096%Z. lia.
+  - apply (pow2_forall_spec grid_ok 12 100000000 sweep_unit). change (2 ^ Z.of_nat 12)%Z with 4096%Z. lia.
+  - apply (pow2_forall_spec grid_ok 12 100000000000 sweep_thousand). change (2 ^ Z.of_nat 12)%Z with 4096%Z. lia.
 Qed.
